@@ -75,7 +75,9 @@ def body_dispatch(I, X, ti=0, n=4, script_name=""):
     return ok, {"app": seen.get("app"), "script": seen.get("script"), "path": seen.get("path")}
 
 
-FORMS = {"free1": ("{}", 1), "free2": ("{}", 2), "escape": ("%{}", 2), "escape-then": ("%2{}", 2), "then-escape": ("{}%2f", 1), "double": ("%25{}", 2)}
+FORMS = {"free1": ("{}", 1), "free2": ("{}", 2), "escape": ("%{}", 2), "escape-then": ("%2{}", 2), "then-escape": ("{}%2f", 1), "double": ("%25{}", 2),
+         # escapes of non-ASCII bytes: a complete UTF-8 sequence, a truncated one, an invalid byte
+         "hi-valid": ("%C3%A9{}", 1), "hi-truncated": ("%E2%98{}", 1), "hi-truncated4": ("%F0%9F%98{}", 1), "hi-invalid": ("{}%FF", 1)}
 
 
 HOSTS = {"h": "h", "idn": "www.\u2603.net", "idn-first": "b\u00fccher.example", "idn-port": "a.b.\u00e9x.fr:8080", "ipv6": "[::1]:8080", "user": "u@h"}
@@ -111,6 +113,11 @@ def body_iri_uri(I, X, comp="path", form="free1", host="h"):
     reserved = {"path": ("/", "?", "#"), "query": ("#", "&", "=", "+"), "fragment": ()}[comp]
     for ch in reserved:
         ok = pand(ok, i1.count(ch) == x.count(ch), u2.count(ch) == x.count(ch))
+    # no byte is lost or invented: fully percent-decoded, the URI and the URI of its IRI denote
+    # the same bytes (invalid escapes stay quoted, they are not dropped or reinterpreted)
+    from harness.c03 import punquote_to_bytes
+
+    ok = pand(ok, peq(punquote_to_bytes(u2), punquote_to_bytes(u1)))
     # the authority (concrete here, IDN labels in normal form) is undone exactly by URI -> IRI
     # and is pure ASCII in the URI
     want = HOSTS[host]
